@@ -163,6 +163,33 @@ pub fn typst_out(n: &Narsese) -> String {
     }
 }
 
+/// C16: the stand-alone Typst renderings (`FormatTo<&FormatterTypst>` of a term, punctuation, stamp, truth, budget)
+/// of the parts of a value: `s <term> [<punct> <stamp> <truth> [<budget>]]`
+pub fn typstparts_out(n: &Narsese) -> String {
+    let r = catch_unwind(AssertUnwindSafe(|| {
+        let f = &FormatterTypst;
+        let mut parts = vec![f.format(n.get_term())];
+        let sentence = match n {
+            Narsese::Term(_) => None,
+            Narsese::Sentence(s) => Some(s),
+            Narsese::Task(k) => Some(k.get_sentence()),
+        };
+        if let Some(s) = sentence {
+            parts.push(f.format(s.get_punctuation()));
+            parts.push(f.format(s.get_stamp()));
+            parts.push(f.format(s.get_truth().unwrap_or(&Truth::Empty)));
+        }
+        if let Narsese::Task(k) = n {
+            parts.push(f.format(k.get_budget()));
+        }
+        parts
+    }));
+    match r {
+        Ok(parts) => format!("s {}", parts.iter().map(|p| ser::hs(p)).collect::<Vec<_>>().join(" ")),
+        Err(_) => "panic".into(),
+    }
+}
+
 pub fn lapi_out(t: &lx::Term) -> String {
     format!(
         "cat={} cap={} extract={}",
@@ -401,6 +428,36 @@ pub fn exec(op: &str, fmt: &str, payload: &str) -> Result<String, String> {
                 |v| ser::truth(v, Mode::Canon),
             )
         }
+        "emid" => {
+            // the fifth side door: the filled slots themselves, and how `NarseseOptions` classifies them
+            type Mid = narsese::api::NarseseOptions<Budget, Term, Punctuation, Stamp, Truth>;
+            let f = efmt(fmt)?;
+            let s = rd.string()?;
+            show(
+                guard(|| {
+                    f.parse::<Mid>(&s).map_err(|e| {
+                        let _ = e.to_string();
+                    })
+                }),
+                |m| {
+                    let o = |x: Option<String>| x.unwrap_or_else(|| "-".into());
+                    let mut m2 = m.clone();
+                    let mut m3 = m.clone();
+                    format!(
+                        "{} {} {} {} {} hs={} ht={} ts={} tt={}",
+                        o(m.budget.as_ref().map(|b| ser::budget(b, Mode::Canon))),
+                        o(m.term.as_ref().map(|t| ser::term(t, Mode::Canon))),
+                        o(m.punctuation.as_ref().map(ser::punct)),
+                        o(m.stamp.as_ref().map(ser::stamp)),
+                        o(m.truth.as_ref().map(|t| ser::truth(t, Mode::Canon))),
+                        b(m.has_sentence()),
+                        b(m.has_task()),
+                        b(m2.take_sentence().is_some()),
+                        b(m3.take_task().is_some()),
+                    )
+                },
+            )
+        }
         "ebudget" => {
             let f = efmt(fmt)?;
             let s = rd.string()?;
@@ -547,6 +604,7 @@ pub fn exec(op: &str, fmt: &str, payload: &str) -> Result<String, String> {
             format!("b {}", b(same))
         }
         "typst" => typst_out(&rd.narsese()?),
+        "typstparts" => typstparts_out(&rd.narsese()?),
         "api" => api_out(&rd.term()?),
         "lapi" => lapi_out(&rd.lterm()?),
         "setname" => {
